@@ -327,8 +327,10 @@ pub fn run(ctx: &Ctx, rep: &mut Report) {
         let mut r = Rng::for_case(ctx.seed, "verylong", i);
         let target = 1100 + r.usize(4900);
         let mut seq: Vec<usize> = vec![];
+        // half of the cases are one unbroken implicit-AND chain; the others carry a rare -o / , / -a
+        let sparse = if i % 2 == 0 { u64::MAX } else { 700 };
         while seq.len() < target {
-            match r.below(40) {
+            match if sparse == u64::MAX { 99 } else { r.below(sparse) } {
                 0 => seq.push(6),
                 1 => seq.push(3),
                 2 => seq.push(4),
